@@ -255,3 +255,509 @@ class Hostile:
         if pk == 'hkey':
             lab, h = s.object_handle(0); return 'hkey=' + lab.split(':')[0], {'hkey': h}
         return 'absent', None
+
+PARAM_STRUCT = {'pss': 24, 'ctr': 24, 'ecdh1': 40, 'oaep': 40, 'gcm': 48, 'kdstr': 16, 'cbcdata8': 24, 'cbcdata16': 32, 'hkey': 8}
+POINTER_KINDS = {'gcm', 'oaep', 'ecdh1', 'kdstr', 'cbcdata8', 'cbcdata16'}
+def param_kind_size(p):
+    """(kind, byte size as the library will see it) of a parameter dict built by wf_param/hostile_param"""
+    if p is None: return 'none', 0
+    if 'hex' in p: k, n = 'hex', len(p['hex']) // 2
+    elif 'cbcdata' in p: k = 'cbcdata8' if len(p['cbcdata']['iv']) == 16 else 'cbcdata16'; n = PARAM_STRUCT[k]
+    else: k = next(x for x in p if x in PARAM_STRUCT); n = PARAM_STRUCT[k]
+    if 'plen' in p and p['plen'] <= n: n = p['plen']
+    return k, n
+def safe_param_for(mech_name, p):
+    """A parameter may be handed to a mechanism only if the library cannot mistake it for a pointer-bearing struct of
+    another type (that would be the HARNESS passing an invalid pointer, which the property excludes)."""
+    exp = MECHS.get(mech_name, ('none',))[0]
+    if exp not in POINTER_KINDS or p is None: return True
+    k, n = param_kind_size(p)
+    if k == exp: return True
+    if k == 'hex' and set(p['hex']) <= {'0'}: return True          # all-zero: NULL pointers, zero lengths
+    return n != PARAM_STRUCT[exp]
+
+# attribute groups used by the template mutators
+BOOL_ATTRS = ['CKA_TOKEN', 'CKA_PRIVATE', 'CKA_MODIFIABLE', 'CKA_COPYABLE', 'CKA_DESTROYABLE', 'CKA_ENCRYPT', 'CKA_DECRYPT', 'CKA_SIGN', 'CKA_VERIFY', 'CKA_WRAP', 'CKA_UNWRAP',
+              'CKA_DERIVE', 'CKA_SENSITIVE', 'CKA_EXTRACTABLE', 'CKA_TRUSTED', 'CKA_LOCAL', 'CKA_ALWAYS_SENSITIVE', 'CKA_NEVER_EXTRACTABLE', 'CKA_WRAP_WITH_TRUSTED',
+              'CKA_ALWAYS_AUTHENTICATE', 'CKA_SIGN_RECOVER', 'CKA_VERIFY_RECOVER']
+ULONG_ATTRS = ['CKA_CLASS', 'CKA_KEY_TYPE', 'CKA_CERTIFICATE_TYPE', 'CKA_VALUE_LEN', 'CKA_MODULUS_BITS', 'CKA_PRIME_BITS', 'CKA_VALUE_BITS', 'CKA_KEY_GEN_MECHANISM',
+               'CKA_CERTIFICATE_CATEGORY', 'CKA_JAVA_MIDP_SECURITY_DOMAIN', 'CKA_NAME_HASH_ALGORITHM']
+BYTES_ATTRS = ['CKA_LABEL', 'CKA_ID', 'CKA_VALUE', 'CKA_APPLICATION', 'CKA_OBJECT_ID', 'CKA_SUBJECT', 'CKA_ISSUER', 'CKA_SERIAL_NUMBER', 'CKA_MODULUS', 'CKA_PUBLIC_EXPONENT',
+               'CKA_PRIVATE_EXPONENT', 'CKA_PRIME_1', 'CKA_PRIME_2', 'CKA_EXPONENT_1', 'CKA_EXPONENT_2', 'CKA_COEFFICIENT', 'CKA_PRIME', 'CKA_SUBPRIME', 'CKA_BASE',
+               'CKA_EC_PARAMS', 'CKA_EC_POINT', 'CKA_START_DATE', 'CKA_END_DATE', 'CKA_CHECK_VALUE', 'CKA_URL', 'CKA_HASH_OF_SUBJECT_PUBLIC_KEY', 'CKA_HASH_OF_ISSUER_PUBLIC_KEY',
+               'CKA_AC_ISSUER', 'CKA_OWNER', 'CKA_ATTR_TYPES', 'CKA_PUBLIC_KEY_INFO', 'CKA_GOSTR3410_PARAMS', 'CKA_GOSTR3411_PARAMS', 'CKA_GOST28147_PARAMS']
+ARRAY_ATTRS = ['CKA_WRAP_TEMPLATE', 'CKA_UNWRAP_TEMPLATE', 'CKA_DERIVE_TEMPLATE']
+MECHLIST_ATTRS = ['CKA_ALLOWED_MECHANISMS']
+UNKNOWN_ATTRS = [0xFFFFFFFF, U64, 0x80000000, 0x80005348, 0x8000534B, 0x8000534C, 0x8000534D, 0x8000534E, 0x8000534F, 0x40000212, 0x7FFFFFFF, 0x600, 0x601, 0x999]
+ALL_ATTR_NAMES = BOOL_ATTRS + ULONG_ATTRS + BYTES_ATTRS + ARRAY_ATTRS + MECHLIST_ATTRS
+
+class Gen(Hostile):
+    """request generator: next() -> (request dict, [tags], base request, [(tag, field, value)])"""
+    def __init__(s, rnd, ck, st, keys, weights=None):
+        super().__init__(rnd, ck, st, keys); s.weights = weights or DEFAULT_FN_WEIGHTS; s.fns = list(s.weights); s.w = [s.weights[f] for f in s.fns]
+        s.count = 0; s.last_sig = ''; s.last_ct = ''
+    # ---------------------------------------------------------------- template helpers
+    def A(s, t, v):
+        t = s.ck[t] if isinstance(t, str) else t
+        if isinstance(v, str): v = s.ck[v]
+        if v is None: return {'t': t, 'hex': ''}
+        if isinstance(v, bool): return {'t': t, 'bool': v}
+        if isinstance(v, int): return {'t': t, 'ulong': v}
+        if isinstance(v, (bytes, bytearray)): return {'t': t, 'hex': bytes(v).hex()}
+        if isinstance(v, list) and v and isinstance(v[0], int): return {'t': t, 'mechs': v}
+        if isinstance(v, list): return {'t': t, 'tmpl': [s.A(a, b) for a, b in v]}
+        if isinstance(v, dict): d = dict(v); d['t'] = t; return d
+        raise TypeError(v)
+    def T(s, pairs): return [s.A(t, v) for t, v in pairs]
+    def obj_template(s, kind=None, token=None):
+        r = s.rnd; kind = kind or r.choice(s.K.kinds())
+        t = s.K.template(kind, label='fz-%d' % s.count, token=(r.random() < 0.15 if token is None else token), private=r.random() < 0.3, sensitive=r.random() < 0.3, extractable=r.random() < 0.8)
+        return kind, s.T(t)
+    def nested(s, depth=0):
+        r = s.rnd; n = r.choice([0, 1, 2, 5])
+        items = []
+        for _ in range(n):
+            c = r.randrange(5)
+            if c == 0: items.append((r.choice(BOOL_ATTRS), r.random() < 0.5))
+            elif c == 1: items.append((r.choice(ULONG_ATTRS), r.choice([0, 1, 3, 4, 16, 0x1f, U64])))
+            elif c == 2: items.append((r.choice(BYTES_ATTRS), r.randbytes(r.choice([0, 1, 8, 100]))))
+            elif c == 3: items.append(('CKA_ALLOWED_MECHANISMS', [s.ck.CKM_AES_CBC, s.ck.CKM_RSA_PKCS][:r.randrange(1, 3)]))
+            elif depth < 2: items.append((r.choice(ARRAY_ATTRS), s.nested(depth + 1)))
+        return items
+    def hostile_template(s, base, get=False):
+        """-> (class label, template spec).  `base` is a list of entries (input template) or of get-slots."""
+        r = s.rnd; ck = s.ck; t = copy.deepcopy(base) if isinstance(base, list) else []; c = r.randrange(14 if not get else 8)
+        def pickidx(pred=lambda e: True):
+            ix = [i for i, e in enumerate(t) if pred(e)]; return r.choice(ix) if ix else None
+        if get:
+            if c == 0: return 'get=empty', []
+            if c == 1: return 'get=null-count0', {'null': True, 'count': 0, 'attrs': []}
+            if c == 2: return 'get=many', [{'t': ck[r.choice(ALL_ATTR_NAMES)], 'buf': r.choice([None, 0, 8, 64, 4096])} for _ in range(r.choice([33, 64, 200]))]
+            if c == 3: return 'get=unknown-type', [{'t': r.choice(UNKNOWN_ATTRS), 'buf': r.choice([None, 0, 8, 64])} for _ in range(r.randrange(1, 4))]
+            if c == 4: return 'get=small-buffers', [{'t': ck[r.choice(ALL_ATTR_NAMES)], 'buf': r.choice([0, 1, 2, 3, 7])} for _ in range(r.randrange(1, 12))]
+            if c == 5: return 'get=array-query', [{'t': ck[r.choice(ARRAY_ATTRS)], 'buf': None, 'len': r.choice([0, 24, U64])}] + [{'t': ck[a], 'buf': 64} for a in r.sample(BYTES_ATTRS, 2)]
+            if c == 6: return 'get=array-slots', [{'t': ck[r.choice(ARRAY_ATTRS)], 'tmpl': [{'t': 0, 'buf': r.choice([0, 1, 8, 64])} for _ in range(r.choice([0, 1, 2, 8]))]}]
+            return 'get=duplicates', [{'t': ck[a], 'buf': r.choice([None, 8, 4096])} for a in [r.choice(ALL_ATTR_NAMES)] * r.randrange(2, 5)]
+        if c == 0: return 'empty', []
+        if c == 1: return 'null-count0', {'null': True, 'count': 0, 'attrs': []}
+        if c == 2 and t: return 'count-lowered', {'attrs': t, 'count': r.randrange(0, len(t))}
+        if c == 3 and t:
+            i = pickidx(); e = t[i]
+            if 'bool' in e: t[i] = r.choice([{'t': e['t'], 'bool': True, 'len': 0}, {'t': e['t'], 'hex': s.blob(r.choice([2, 4, 8]))}, {'t': e['t'], 'bool': r.choice([2, 0x7f, 0xff])}])
+            elif 'ulong' in e: t[i] = r.choice([{'t': e['t'], 'ulong': e['ulong'], 'len': r.choice([0, 1, 4, 7])}, {'t': e['t'], 'hex': s.blob(r.choice([9, 16, 100]))}])
+            elif 'hex' in e: n = r.choice([0, 1, 3, 4, 8, 4096, 65536]); t[i] = {'t': e['t'], 'hex': s.blob(n)}
+            elif 'mechs' in e: t[i] = {'t': e['t'], 'hex': s.blob(r.choice([1, 7, 9, 12]))}
+            else: t[i] = {'t': e['t'], 'hex': s.blob(8)}
+            return 'wrong-size', t
+        if c == 4 and t:
+            i = pickidx(); e = copy.deepcopy(t[i])
+            if r.random() < 0.5 and 'bool' in e: e['bool'] = not e['bool']
+            t.insert(r.randrange(len(t) + 1), e); return 'duplicate', t
+        if c == 5:
+            a = r.choice(ARRAY_ATTRS); e = s.A(a, s.nested()) if r.random() < 0.8 else {'t': ck[a], 'tmpl': []}
+            if r.random() < 0.3 and e.get('tmpl'): e['len'] = r.choice([0, 1, 23, 25, 24 * len(e['tmpl']) - 1])
+            t.append(e); return 'nested', t
+        if c == 6:
+            n = r.choice([33, 40, 100, 300])
+            while len(t) < n:
+                k = r.randrange(3)
+                t.append(s.A(r.choice(BOOL_ATTRS), r.random() < 0.5) if k == 0 else s.A(r.choice(BYTES_ATTRS), r.randbytes(r.choice([0, 4, 16]))) if k == 1 else s.A(r.choice(ULONG_ATTRS), r.randrange(0, 8)))
+            r.shuffle(t); return 'many', t
+        if c == 7 and t:
+            i = pickidx(); t[i] = {'t': t[i]['t'], 'hex': '', 'null': True}; return 'null-value', t
+        if c == 8:
+            t.insert(r.randrange(len(t) + 1), {'t': r.choice(UNKNOWN_ATTRS), 'hex': s.blob(r.choice([0, 1, 8, 16]))}); return 'unknown-type', t
+        if c == 9 and t:
+            i = pickidx(lambda e: 'ulong' in e)
+            if i is not None: t[i] = {'t': t[i]['t'], 'ulong': r.choice([0, 1, 2, 3, 4, 5, 6, 7, 8, 0x1f, 0x20, 0x30, 0x40, 0xFFFFFFFF, (1 << 31) + 1, 1 << 32, U64, 127, 129, 511, 513, 1023])}; return 'ulong-value', t
+        if c == 10 and t:
+            i = pickidx(lambda e: 'hex' in e and e['t'] not in (ck.CKA_LABEL, ck.CKA_ID))
+            if i is not None:
+                good = t[i]['hex']; k = r.randrange(7)
+                v = ['', '00', good[:len(good) // 4 * 2], good + 'ff', '00' * (len(good) // 2), 'ff' * (len(good) // 2), s.blob(max(1, len(good) // 2))][k]
+                t[i] = {'t': t[i]['t'], 'hex': v}; return 'bytes-value', t
+        if c == 11:
+            t.append(s.A('CKA_ALLOWED_MECHANISMS', r.choice([[], [U64], [s.ck.CKM_AES_CBC] * 3, list(range(300))]))) if r.random() < 0.6 else t.append({'t': ck.CKA_ALLOWED_MECHANISMS, 'hex': s.blob(r.choice([1, 4, 9, 17]))}); return 'mechanism-list', t
+        if c == 12:
+            a = r.choice(['CKA_START_DATE', 'CKA_END_DATE']); t.append({'t': ck[a], 'hex': r.choice(['', s.blob(1), s.blob(7), b'20991332'.hex(), s.blob(8), s.blob(9), s.blob(100)])}); return 'date', t
+        if t:
+            r.shuffle(t); del t[r.randrange(len(t))]; return 'dropped-attribute', t
+        return 'empty', []
+
+DEFAULT_FN_WEIGHTS = {f: 2 for f in ALL_FNS}
+DEFAULT_FN_WEIGHTS.update({'C_Initialize': 1, 'C_Finalize': 0.4, 'C_InitToken': 0.5, 'C_CloseAllSessions': 0.5, 'C_Logout': 0.6, 'C_CloseSession': 1, 'C_GetInfo': 0.5, 'C_GetFunctionList': 0.3,
+    'C_GetFunctionStatus': 0.4, 'C_CancelFunction': 0.4, 'C_WaitForSlotEvent': 0.4, 'C_GetSlotInfo': 0.6, 'C_OpenSession': 1.5, 'C_Login': 1.5,
+    'C_CreateObject': 5, 'C_CopyObject': 3, 'C_SetAttributeValue': 4, 'C_GetAttributeValue': 5, 'C_FindObjectsInit': 3, 'C_FindObjects': 3,
+    'C_EncryptInit': 6, 'C_DecryptInit': 6, 'C_SignInit': 7, 'C_VerifyInit': 7, 'C_DigestInit': 3, 'C_Encrypt': 5, 'C_Decrypt': 5, 'C_Sign': 5, 'C_Verify': 5,
+    'C_EncryptUpdate': 4, 'C_DecryptUpdate': 4, 'C_EncryptFinal': 3, 'C_DecryptFinal': 3, 'C_SignUpdate': 3, 'C_SignFinal': 3, 'C_VerifyUpdate': 3, 'C_VerifyFinal': 3,
+    'C_Digest': 3, 'C_DigestUpdate': 2, 'C_DigestFinal': 2, 'C_DigestKey': 2, 'C_GenerateKey': 2.5, 'C_GenerateKeyPair': 2.5, 'C_WrapKey': 5, 'C_UnwrapKey': 6, 'C_DeriveKey': 7,
+    'C_SetOperationState': 1.5, 'C_GetOperationState': 1.5, 'C_SeedRandom': 1.5, 'C_GenerateRandom': 1.5})
+# which data-phase calls continue which Init
+FOLLOW = {'E': ['C_Encrypt', 'C_EncryptUpdate', 'C_EncryptFinal', 'C_DigestEncryptUpdate', 'C_SignEncryptUpdate'], 'De': ['C_Decrypt', 'C_DecryptUpdate', 'C_DecryptFinal', 'C_DecryptDigestUpdate', 'C_DecryptVerifyUpdate'],
+          'S': ['C_Sign', 'C_SignUpdate', 'C_SignFinal'], 'Ve': ['C_Verify', 'C_VerifyUpdate', 'C_VerifyFinal'], 'D': ['C_Digest', 'C_DigestUpdate', 'C_DigestFinal', 'C_DigestKey'],
+          'F': ['C_FindObjects', 'C_FindObjectsFinal'], 'SR': ['C_SignRecover'], 'VR': ['C_VerifyRecover']}
+DATA_PHASE = {f for l in FOLLOW.values() for f in l}
+INIT_OP = {'C_EncryptInit': 'E', 'C_DecryptInit': 'De', 'C_SignInit': 'S', 'C_VerifyInit': 'Ve', 'C_DigestInit': 'D', 'C_FindObjectsInit': 'F', 'C_SignRecoverInit': 'SR', 'C_VerifyRecoverInit': 'VR'}
+SESSION_FNS = {f for f in ALL_FNS} - {'C_Initialize', 'C_Finalize', 'C_GetInfo', 'C_GetFunctionList', 'C_GetSlotList', 'C_GetSlotInfo', 'C_GetTokenInfo', 'C_GetMechanismList', 'C_GetMechanismInfo',
+                                     'C_InitToken', 'C_OpenSession', 'C_CloseAllSessions', 'C_WaitForSlotEvent'}
+
+def _gen_methods():
+    """the Gen methods that build base requests; kept in a function body only to keep the class readable"""
+Gen_base = Gen
+class Gen(Gen_base):
+    def sess(s, ti=0):
+        l = s.st.live_sessions(ti) or s.st.live_sessions()
+        return s.rnd.choice(l) if l else 1
+    def key_for(s, mech, side):
+        """a live object whose class fits `mech`; side: 'pub' | 'priv' for asymmetric mechanisms"""
+        pk, ops, ks = MECHS.get(mech, ('none', '', []))
+        want = set()
+        for k in ks: want.add(k if ('-' in k or k in ('aes', 'des3', 'des2', 'des', 'generic')) else k + '-' + side)
+        c = [o for o in s.st.objs if kclass(o.kind) in want]
+        c0 = [o for o in c if o.ti == 0] or c
+        return s.rnd.choice(c0) if c0 else (s.rnd.choice(s.st.objs) if s.st.objs else None)
+    def mech(s, name, key=None):
+        pk = MECHS[name][0]; p = s.wf_param(pk)
+        if p: p = {k: v for k, v in p.items() if not k.startswith('_')}
+        return {'m': s.ck[name], 'p': p}
+    def data_for(s, sess_h):
+        """input data whose size tends to fit the operation active on that session"""
+        r = s.rnd; op = s.st.op.get(sess_h)
+        if op:
+            kind, mech = op
+            if mech in ('CKM_RSA_PKCS', 'CKM_RSA_PKCS_OAEP'): n = r.choice([1, 20, 32, 53, 86, 117, 128, 245, 256]) if kind not in ('De', 'VR') else r.choice([128, 256])
+            elif mech == 'CKM_RSA_X_509': n = r.choice([127, 128, 129, 255, 256])
+            elif mech in ('CKM_ECDSA', 'CKM_DSA', 'CKM_RSA_PKCS_PSS'): n = r.choice([20, 28, 32, 48, 64])
+            elif 'ECB' in mech or mech.endswith('_CBC'): n = r.choice([8, 16, 32, 48, 64, 1024])
+            else: n = r.choice(SIZES)
+            if kind == 'De' and s.last_ct and r.random() < 0.5: return s.last_ct
+            return s.blob(n)
+        return s.blob(r.choice(SIZES))
+    # ---------------------------------------------------------------- base requests (well-formed for the believed state)
+    def base(s, fn):
+        r = s.rnd; st = s.st; ck = s.ck; K = s.K; q = {'fn': fn}
+        S = s.sess()
+        if fn in SESSION_FNS: q['s'] = S
+        if fn == 'C_Initialize': q['locking'] = r.choice(['none', 'os', 'cb', 'null'])
+        elif fn == 'C_GetSlotList': q.update(count=r.choice([8, 16]), present=r.random() < 0.7)
+        elif fn in ('C_GetSlotInfo', 'C_GetTokenInfo', 'C_CloseAllSessions'): q['slot'] = r.choice(st.slots[:2] or [0])
+        elif fn == 'C_GetMechanismList': q.update(slot=st.slots[0] if st.slots else 0, count=128)
+        elif fn == 'C_GetMechanismInfo': q.update(slot=st.slots[0] if st.slots else 0, m=ck[r.choice(list(MECHS))])
+        elif fn == 'C_InitToken': ti = r.choice([1, 1, 2]) if len(st.slots) > 2 else 0; q.update(slot=st.slots[ti] if st.slots else 0, pin=st.pins.get(('so', ti), b'so-pin-new').hex(), label=b'fuzzed'.hex())
+        elif fn == 'C_InitPIN': q['pin'] = b'new-user-pin'.hex()
+        elif fn == 'C_SetPIN': q.update(old=st.pins.get(('user', 0), b'x').hex(), new=st.pins.get(('user', 0), b'x').hex())
+        elif fn == 'C_OpenSession': q.update(slot=r.choice(st.slots[:2] or [0]), flags=r.choice([4, 6, 6]))
+        elif fn == 'C_GetOperationState': q['buf'] = r.choice([None, 4096])
+        elif fn == 'C_SetOperationState': q.update(data=s.blob(r.choice([16, 64, 200])), k1=0, k2=0)
+        elif fn == 'C_Login': ti = st.sessions.get(S, {'ti': 0})['ti']; u = r.choice([1, 1, 1, 0]); q.update(user=u, pin=st.pins.get(('user' if u else 'so', ti), b'x').hex())
+        elif fn == 'C_CreateObject': kind, t = s.obj_template(); q['tmpl'] = t; q['_kind'] = kind
+        elif fn == 'C_CopyObject':
+            o = r.choice(st.objs) if st.objs else None; q.update(o=o.h if o else 0, tmpl=s.T([('CKA_LABEL', b'copy-%d' % s.count)] + ([('CKA_TOKEN', r.random() < 0.2)] if r.random() < 0.5 else []))); q['_kind'] = o.kind if o else None
+        elif fn in ('C_DestroyObject', 'C_GetObjectSize'): o = r.choice(st.objs) if st.objs else None; q['o'] = o.h if o else 0
+        elif fn == 'C_GetAttributeValue':
+            o = r.choice(st.objs) if st.objs else None; names = r.sample(ALL_ATTR_NAMES[:len(BOOL_ATTRS) + len(ULONG_ATTRS) + len(BYTES_ATTRS)], r.randrange(1, 8))
+            q.update(o=o.h if o else 0, tmpl=[{'t': ck[a], 'buf': r.choice([None, 8, 256, 4096])} for a in names])
+        elif fn == 'C_SetAttributeValue':
+            o = r.choice(st.objs) if st.objs else None; c = r.randrange(4)
+            t = [('CKA_LABEL', b'set-%d' % s.count)] if c == 0 else [('CKA_ID', r.randbytes(r.choice([0, 4, 16])))] if c == 1 else [(r.choice(BOOL_ATTRS), r.random() < 0.5)] if c == 2 else [('CKA_LABEL', b'x'), (r.choice(BOOL_ATTRS), True), ('CKA_ID', b'id')]
+            q.update(o=o.h if o else 0, tmpl=s.T(t))
+        elif fn == 'C_FindObjectsInit':
+            c = r.randrange(5); q['tmpl'] = s.T([] if c == 0 else [('CKA_CLASS', r.choice(['CKO_SECRET_KEY', 'CKO_PRIVATE_KEY', 'CKO_PUBLIC_KEY', 'CKO_DATA', 'CKO_CERTIFICATE']))] if c == 1 else [('CKA_TOKEN', r.random() < 0.5)] if c == 2 else [('CKA_LABEL', b'aes128')] if c == 3 else [('CKA_KEY_TYPE', 'CKK_RSA'), ('CKA_SIGN', True)])
+        elif fn == 'C_FindObjects': q['max'] = r.choice([1, 4, 64])
+        elif fn in ('C_EncryptInit', 'C_DecryptInit'):
+            m = r.choice(op_mechs('E')); k = s.key_for(m, 'pub' if fn == 'C_EncryptInit' else 'priv'); q.update(mech=s.mech(m), key=k.h if k else 0, _mech=m)
+        elif fn in ('C_SignInit', 'C_VerifyInit'):
+            m = r.choice(op_mechs('S')); k = s.key_for(m, 'priv' if fn == 'C_SignInit' else 'pub'); q.update(mech=s.mech(m), key=k.h if k else 0, _mech=m)
+        elif fn in ('C_SignRecoverInit', 'C_VerifyRecoverInit'):
+            m = r.choice(op_mechs('R')); k = s.key_for(m, 'priv' if fn == 'C_SignRecoverInit' else 'pub'); q.update(mech=s.mech(m), key=k.h if k else 0, _mech=m)
+        elif fn == 'C_DigestInit': m = r.choice(HASHES); q.update(mech=s.mech(m), _mech=m)
+        elif fn in ('C_Encrypt', 'C_EncryptUpdate', 'C_Decrypt', 'C_DecryptUpdate', 'C_Digest', 'C_Sign', 'C_SignRecover', 'C_VerifyRecover', 'C_DigestEncryptUpdate', 'C_DecryptDigestUpdate', 'C_SignEncryptUpdate', 'C_DecryptVerifyUpdate'):
+            q.update(data=s.data_for(S), buf=r.choice([None, 4096, 4096, 4096, 70000]))
+        elif fn in ('C_EncryptFinal', 'C_DecryptFinal', 'C_DigestFinal', 'C_SignFinal'): q['buf'] = r.choice([None, 4096, 4096])
+        elif fn in ('C_DigestUpdate', 'C_SignUpdate', 'C_VerifyUpdate', 'C_SeedRandom'): q['data'] = s.data_for(S)
+        elif fn == 'C_DigestKey': k = s.key_for('CKM_AES_ECB', 'pub'); q['key'] = k.h if k else 0
+        elif fn == 'C_Verify': q.update(data=s.data_for(S), sig=s.last_sig if (s.last_sig and r.random() < 0.6) else s.blob(r.choice([20, 40, 56, 64, 96, 128, 132, 256])))
+        elif fn == 'C_VerifyFinal': q['sig'] = s.last_sig if (s.last_sig and r.random() < 0.6) else s.blob(r.choice([20, 32, 64, 128, 256]))
+        elif fn == 'C_GenerateKey':
+            m = r.choice(op_mechs('G'))
+            t = [('CKA_TOKEN', False), ('CKA_LABEL', b'gen-%d' % s.count)]
+            if m in ('CKM_AES_KEY_GEN', 'CKM_GENERIC_SECRET_KEY_GEN'): t += [('CKA_VALUE_LEN', r.choice([16, 24, 32])), ('CKA_ENCRYPT', True), ('CKA_SIGN', True)]
+            elif m.endswith('PARAMETER_GEN'): t += [('CKA_PRIME_BITS', 512)]
+            q.update(mech=s.mech(m), tmpl=s.T(t), _mech=m, _kind={'CKM_AES_KEY_GEN': 'aes128', 'CKM_GENERIC_SECRET_KEY_GEN': 'generic32', 'CKM_DES3_KEY_GEN': 'des3', 'CKM_DES2_KEY_GEN': 'des2', 'CKM_DES_KEY_GEN': 'des'}.get(m, 'dsa-params'))
+        elif fn == 'C_GenerateKeyPair':
+            m = r.choice(op_mechs('P')); pub = [('CKA_TOKEN', False), ('CKA_VERIFY', True), ('CKA_LABEL', b'gp-%d' % s.count)]; priv = [('CKA_TOKEN', False), ('CKA_SIGN', True), ('CKA_SENSITIVE', r.random() < 0.5), ('CKA_LABEL', b'gq-%d' % s.count)]
+            R = K.RAW
+            if m == 'CKM_RSA_PKCS_KEY_PAIR_GEN': pub += [('CKA_MODULUS_BITS', r.choice([512, 1024])), ('CKA_PUBLIC_EXPONENT', bytes([1, 0, 1]))]; kind = 'rsa1024'
+            elif m == 'CKM_EC_KEY_PAIR_GEN': pub += [('CKA_EC_PARAMS', bytes.fromhex(R[r.choice(['ec_p256', 'ec_p384', 'ec_p521'])]['CKA_EC_PARAMS']))]; kind = 'ec_p256'
+            elif m == 'CKM_EC_EDWARDS_KEY_PAIR_GEN': pub += [('CKA_EC_PARAMS', bytes.fromhex(R['ed25519']['CKA_EC_PARAMS']))]; kind = 'ed25519'
+            elif m == 'CKM_DSA_KEY_PAIR_GEN': pub += [(a, bytes.fromhex(R['dsa1024'][a])) for a in ('CKA_PRIME', 'CKA_SUBPRIME', 'CKA_BASE')]; kind = 'dsa1024'
+            else: pub += [(a, bytes.fromhex(R['dh1024'][a])) for a in ('CKA_PRIME', 'CKA_BASE')]; kind = 'dh1024'
+            q.update(mech=s.mech(m), pub=s.T(pub), priv=s.T(priv), _mech=m, _kind=kind)
+        elif fn == 'C_WrapKey':
+            m = r.choice(op_mechs('W')); wk = s.key_for(m, 'pub'); tgt = [o for o in st.objs if kclass(o.kind) in ('aes', 'generic', 'des3', 'rsa-priv', 'ec-priv', 'dsa-priv', 'dh-priv', 'ed-priv')]
+            k = r.choice(tgt) if tgt else None; q.update(mech=s.mech(m), wkey=wk.h if wk else 0, key=k.h if k else 0, buf=r.choice([None, 4096, 4096]), _mech=m)
+        elif fn == 'C_UnwrapKey':
+            m = r.choice(op_mechs('W')); uk = s.key_for(m, 'priv'); c = r.randrange(3)
+            t = [('CKA_CLASS', 'CKO_SECRET_KEY'), ('CKA_KEY_TYPE', r.choice(['CKK_AES', 'CKK_GENERIC_SECRET', 'CKK_DES3'])), ('CKA_TOKEN', False), ('CKA_EXTRACTABLE', True)] if c else \
+                [('CKA_CLASS', 'CKO_PRIVATE_KEY'), ('CKA_KEY_TYPE', r.choice(['CKK_RSA', 'CKK_EC', 'CKK_DSA', 'CKK_DH', 'CKK_EC_EDWARDS'])), ('CKA_TOKEN', False), ('CKA_SENSITIVE', False), ('CKA_EXTRACTABLE', True)]
+            w = s.last_wrapped if (getattr(s, 'last_wrapped', '') and r.random() < 0.6) else s.blob(r.choice([8, 16, 24, 32, 40, 128, 256, 640]))
+            q.update(mech=s.mech(m), ukey=uk.h if uk else 0, wrapped=w, tmpl=s.T(t), _mech=m, _kind='aes128' if c else 'rsa1024:priv')
+        elif fn == 'C_DeriveKey':
+            m = r.choice(op_mechs('V')); k = s.key_for(m, 'priv')
+            t = [('CKA_CLASS', 'CKO_SECRET_KEY'), ('CKA_KEY_TYPE', r.choice(['CKK_GENERIC_SECRET', 'CKK_AES', 'CKK_DES3', 'CKK_DES2', 'CKK_DES'])), ('CKA_TOKEN', False), ('CKA_SENSITIVE', False), ('CKA_EXTRACTABLE', True)]
+            if r.random() < 0.7: t.append(('CKA_VALUE_LEN', r.choice([16, 24, 32])))
+            mm = s.mech(m)
+            if m == 'CKM_ECDH1_DERIVE' and k is not None and k.kind and ':' in k.kind:   # peer point on the same curve as the base key
+                peer = k.kind.split(':')[0].rstrip('b') + 'b'
+                if peer in K.RAW: mm['p'] = {'ecdh1': {'kdf': 1, 'public': K.RAW[peer]['CKA_EC_POINT']}}
+            q.update(mech=mm, key=k.h if k else 0, tmpl=s.T(t), _mech=m, _kind='generic32')
+        elif fn == 'C_GenerateRandom': q['buf'] = r.choice([1, 16, 32, 256])
+        elif fn == 'C_WaitForSlotEvent': q['flags'] = 1
+        return q
+
+Gen_base2 = Gen
+class Gen(Gen_base2):
+    # ---------------------------------------------------------------- edits
+    def candidate_edits(s, fn, q):
+        """every field of the request that can be made hostile -> list of thunks returning (tag, field, value)"""
+        r = s.rnd; ck = s.ck; out = []
+        def add(f, w=1.0): out.append((w, f))
+        if 's' in q: add(lambda: (lambda l, v: ('handle:s=' + l, 's', v))(*s.session_handle(q['s'])), 0.08 if len(q) > 2 else 1.0)
+        for f in ('o', 'key', 'wkey', 'ukey'):
+            if f in q:
+                def th(f=f):
+                    l, v = s.object_handle(q[f], f); return (('keytype=' + l[5:]) if l.startswith('kind:') and f != 'o' else ('handle:%s=%s' % (f, l.replace('kind:', 'kind-')))), f, v
+                add(th)
+        if 'slot' in q: add(lambda: (lambda l, v: ('handle:slot=' + l, 'slot', v))(*s.slot(q['slot'])))
+        for f in ('data', 'sig', 'wrapped'):
+            if f in q: add(lambda f=f: (lambda l, v: ('len:%s=%s' % (f, l), f, v))(*s.inbuf(q[f])))
+        for f in ('pin', 'old', 'new'):
+            if f in q: add(lambda f=f: (lambda l, v: ('pin:%s=%s' % (f, l), f, v))(*s.pin(q[f])))
+        if 'buf' in q and fn != 'C_GenerateRandom': add(lambda: (lambda l, v: ('buf=' + l, 'buf', v))(*s.outbuf()))
+        if fn == 'C_GenerateRandom': add(lambda: (lambda n: ('buf=' + ('0' if n == 0 else 'huge' if n > 4096 else 'size'), 'buf', n))(r.choice([0, 1, 4096, 65536, 1 << 20])))
+        if 'buf' in q and fn != 'C_GenerateRandom' and q['buf']: add(lambda: ('buf=announce-lowered', 'announce', r.randrange(0, q['buf'])))
+        for f in ('tmpl', 'pub', 'priv'):
+            if f in q: add(lambda f=f: (lambda l, v: ('tmpl=' + l, f, v))(*s.hostile_template(q[f], get=(fn == 'C_GetAttributeValue'))))
+        if 'mech' in q:
+            name = q.get('_mech'); pk = MECHS[name][0]
+            def th_param():
+                l, p = s.hostile_param(pk); return 'mechparam:%s:%s' % (pk, l), 'mech', {'m': ck[name], 'p': p}
+            def th_swap():
+                c = r.randrange(3)
+                if c == 0: return 'mech=unknown', 'mech', {'m': r.choice(UNKNOWN_MECHS), 'p': q['mech']['p'] if r.random() < 0.5 else None}
+                other = r.choice(list(MECHS)); p = q['mech']['p']
+                if c == 1:   # the other mechanism with THIS mechanism's parameter (only where the library cannot mistake it for a pointer-bearing struct)
+                    if not safe_param_for(other, p): p = None
+                    return 'mech=other+param-kept', 'mech', {'m': ck[other], 'p': p}
+                return 'mech=other', 'mech', s.mech(other)   # a well-formed mechanism that does not fit the operation or the key
+            add(th_param, 3.0); add(th_swap, 1.0)
+        if fn == 'C_Login': add(lambda: (lambda l, v: ('arg:user=' + l, 'user', v))(*s.ulong()))
+        if fn == 'C_OpenSession': add(lambda: (lambda l, v: ('arg:flags=' + l, 'flags', v))(*s.ulong()))
+        if fn == 'C_WaitForSlotEvent': add(lambda: (lambda l, v: ('arg:flags=' + l, 'flags', v | 1))(*s.ulong()))
+        if fn == 'C_GetMechanismInfo': add(lambda: ('arg:m=unknown', 'm', r.choice(UNKNOWN_MECHS)))
+        if fn in ('C_GetSlotList', 'C_GetMechanismList'):
+            add(lambda: ('buf=null', 'null', True)); add(lambda: (lambda n: ('arg:count=' + ('0' if n == 0 else 'small' if n < 8 else 'large'), 'count', n))(r.choice([0, 1, 2, 3, 4096])))
+        if fn == 'C_FindObjects': add(lambda: (lambda n: ('arg:max=' + ('0' if n == 0 else 'large'), 'max', n))(r.choice([0, 0, 4096, 65536])))
+        if fn == 'C_SetOperationState':
+            add(lambda: (lambda l, v: ('handle:k1=' + l.split(':')[0], 'k1', v))(*s.object_handle(0))); add(lambda: (lambda l, v: ('handle:k2=' + l.split(':')[0], 'k2', v))(*s.object_handle(0)))
+            add(lambda: ('opstate=replayed', 'data', getattr(s, 'last_state', '') or s.blob(32)))
+        if fn == 'C_InitToken': add(lambda: ('label=short', 'label', ''))
+        return out
+    def pick_fn(s):
+        r = s.rnd; st = s.st
+        if not st.init: return 'C_Initialize' if r.random() < 0.5 else r.choices(s.fns, s.w)[0]
+        if st.op and r.random() < 0.45:   # continue an operation that is believed active
+            sh = r.choice(list(st.op)); kind, _ = st.op[sh]; s._force_s = sh; return r.choice(FOLLOW[kind])
+        if not st.live_sessions() and r.random() < 0.6: return 'C_OpenSession'
+        fn = r.choices(s.fns, s.w)[0]
+        if fn in DATA_PHASE and r.random() < 0.7: fn = r.choices(s.fns, s.w)[0]   # data-phase calls without an active operation are shallow: damp them
+        return fn
+    def next(s):
+        r = s.rnd; s.count += 1; s._force_s = None
+        fn = s.pick_fn(); q = s.base(fn)
+        if s._force_s is not None and 's' in q:
+            q['s'] = s._force_s
+            if 'data' in q: q['data'] = s.data_for(s._force_s)
+        cands = s.candidate_edits(fn, q)
+        n = 0 if not cands else r.choices([0, 1, 2, 3], [0.27, 0.48, 0.19, 0.06])[0]
+        edits = []; seen = set()
+        pool = list(cands)
+        for _ in range(min(n, len(pool))):
+            i = r.choices(range(len(pool)), [w for w, _ in pool])[0]; th = pool.pop(i)[1]
+            tag, field, val = th()
+            if field in seen: continue
+            seen.add(field); edits.append((tag, field, val))
+        req = s.apply(q, edits)
+        return req, sorted(t for t, _, _ in edits), q, edits
+    @staticmethod
+    def apply(base, edits):
+        req = dict(base)
+        for tag, field, val in edits: req[field] = val
+        if edits: req['_tags'] = sorted(t for t, _, _ in edits)
+        return req
+    # ---------------------------------------------------------------- state tracking from replies
+    def observe(s, req, res):
+        st = s.st; fn = req['fn']; rv = res.get('rv', -1); ok = rv == 0
+        S = req.get('s')
+        if fn == 'C_Finalize' and ok: st.init = False; st.closed += list(st.sessions); st.sessions = {}; st.op = {}; st.stale += [o.h for o in st.objs if not o.token]; st.objs = [o for o in st.objs if o.token]
+        elif fn == 'C_Initialize' and ok: st.init = True
+        elif fn == 'C_OpenSession' and ok and req.get('slot') in st.slots: st.sessions[res['h']] = {'ti': st.slots.index(req['slot']), 'rw': bool(req.get('flags', 6) & 2)}
+        elif fn == 'C_CloseSession' and ok and S in st.sessions: st.sessions.pop(S); st.closed.append(S); st.op.pop(S, None)
+        elif fn == 'C_CloseAllSessions' and ok and req.get('slot') in st.slots:
+            ti = st.slots.index(req['slot'])
+            for h in [h for h, d in st.sessions.items() if d['ti'] == ti]: st.sessions.pop(h); st.closed.append(h); st.op.pop(h, None)
+        elif fn == 'C_InitToken' and ok and req.get('slot') in st.slots:
+            ti = st.slots.index(req['slot']); st.stale += [o.h for o in st.objs if o.ti == ti]; st.objs = [o for o in st.objs if o.ti != ti]
+        elif fn in ('C_CreateObject', 'C_CopyObject', 'C_GenerateKey', 'C_UnwrapKey', 'C_DeriveKey') and ok and res.get('h'):
+            st.objs.append(Obj(res['h'], req.get('_kind'), st.sessions.get(S, {'ti': 0})['ti']))
+        elif fn == 'C_GenerateKeyPair' and ok:
+            ti = st.sessions.get(S, {'ti': 0})['ti']; k = req.get('_kind') or 'rsa1024'
+            st.objs.append(Obj(res['hpub'], k + ':pub', ti)); st.objs.append(Obj(res['hpriv'], k + ':priv', ti))
+        elif fn == 'C_DestroyObject' and ok:
+            st.stale.append(req['o']); st.objs = [o for o in st.objs if o.h != req['o']]
+        elif fn in INIT_OP:
+            if ok and S in st.sessions: st.op[S] = (INIT_OP[fn], req.get('_mech') or 'find')
+        elif fn in ('C_Encrypt', 'C_Decrypt', 'C_Sign', 'C_Verify', 'C_Digest', 'C_EncryptFinal', 'C_DecryptFinal', 'C_SignFinal', 'C_VerifyFinal', 'C_DigestFinal', 'C_FindObjectsFinal', 'C_SignRecover', 'C_VerifyRecover'):
+            if res.get('rvname') != 'CKR_BUFFER_TOO_SMALL' and not (ok and req.get('buf', 1) is None): st.op.pop(S, None)
+        out = res.get('out') or {}
+        if ok and out.get('data'):
+            if fn in ('C_Sign', 'C_SignFinal'): s.last_sig = out['data']
+            elif fn in ('C_Encrypt', 'C_EncryptUpdate'): s.last_ct = out['data']
+            elif fn == 'C_WrapKey': s.last_wrapped = out['data']
+            elif fn == 'C_GetOperationState': s.last_state = out['data']
+        if len(st.stale) > 64: st.stale = st.stale[-64:]
+        if len(st.closed) > 32: st.closed = st.closed[-32:]
+
+# ================================================================================================ file fuzz
+import struct
+def walk_objfile(b):
+    """Own field walker for the file back-end's object format (8-byte BE generation, then records
+    (type u64, kind u64, value); kinds 1 bool(1) / 2 ulong(8) / 3 bytes(len u64 + data) / 4 attribute map
+    (byte length u64, then (type, kind, value) with kind 1/2/3/5... inner kinds are akBoolean.. of OSAttribute) /
+    5 mechanism set (count u64 + count*u64)).  Returns (fields, records): fields = [(offset, size, role, record index)],
+    records = [(start, end, type, kind)].  Stops silently where the file stops making sense."""
+    F = []; R = []; n = len(b)
+    def u64(o): return struct.unpack_from('>Q', b, o)[0]
+    if n < 8: return F, R
+    F.append((0, 8, 'generation', -1)); o = 8
+    def value(o, kind, ri, end, depth):
+        if kind == 1:
+            if o + 1 > end: return None
+            F.append((o, 1, 'bool', ri)); return o + 1
+        if kind == 2:
+            if o + 8 > end: return None
+            F.append((o, 8, 'ulong', ri)); return o + 8
+        if kind == 3:
+            if o + 8 > end: return None
+            l = u64(o); F.append((o, 8, 'blen', ri))
+            if o + 8 + l > end: return None
+            F.append((o + 8, l, 'bytes', ri)); return o + 8 + l
+        if kind == 5:
+            if o + 8 > end: return None
+            c = u64(o); F.append((o, 8, 'mcount', ri))
+            if o + 8 + 8 * c > end: return None
+            for i in range(c): F.append((o + 8 + 8 * i, 8, 'mech', ri))
+            return o + 8 + 8 * c
+        if kind == 4 and depth == 0:
+            if o + 8 > end: return None
+            l = u64(o); F.append((o, 8, 'maplen', ri)); p = o + 8; e = p + l
+            if e > end: return None
+            while p < e:
+                if p + 16 > e: return None
+                F.append((p, 8, 'mtype', ri)); F.append((p + 8, 8, 'mkind', ri)); p2 = value(p + 16, u64(p + 8), ri, e, 1)
+                if p2 is None: return None
+                p = p2
+            return e
+        return None
+    while o + 16 <= n:
+        t = u64(o); k = u64(o + 8); ri = len(R); mark = len(F)
+        F.append((o, 8, 'type', ri)); F.append((o + 8, 8, 'kind', ri))
+        e = value(o + 16, k, ri, n, 0)
+        if e is None: del F[mark:]; break
+        R.append((o, e, t, k)); o = e
+    return F, R
+
+LEN_VALUES = [0, 1, 1 << 31, (1 << 31) - 1, 1 << 32, 1 << 62, 1 << 63, U64, U64 - 7]
+def mutate_objfile(rnd, b, other=None):
+    """one structure-aware mutation of an object / token file -> (class label, new bytes)"""
+    F, R = walk_objfile(b); r = rnd; n = len(b); b = bytearray(b)
+    def put(o, v): b[o:o + 8] = struct.pack('>Q', v & U64)
+    lens = [f for f in F if f[2] in ('blen', 'maplen', 'mcount')]; kinds = [f for f in F if f[2] in ('kind', 'mkind')]; types = [f for f in F if f[2] in ('type', 'mtype')]
+    c = r.randrange(20)
+    if c == 0: 
+        for _ in range(r.choice([1, 1, 2, 8, 32])): i = r.randrange(max(1, n)); b[i:i + 1] = bytes([(b[i] if i < n else 0) ^ (1 << r.randrange(8))])
+        return 'bitflip', bytes(b)
+    if c in (1, 2) and lens:
+        f = r.choice(lens); rest = n - (f[0] + 8); v = r.choice(LEN_VALUES + [rest, rest + 1, max(0, rest - 1), n, n + 1, n - 1])
+        if f[2] == 'mcount': v = r.choice(LEN_VALUES + [rest // 8, rest // 8 + 1, rest])
+        put(f[0], v); return 'length-field:' + f[2], bytes(b)
+    if c == 3 and F:
+        f = r.choice(F); cut = r.choice([f[0], f[0] + f[1], f[0] + 1, max(0, f[0] + f[1] - 1)]); return 'truncate-at-field', bytes(b[:cut])
+    if c == 4 and kinds:
+        f = r.choice(kinds); put(f[0], r.choice([0, 1, 2, 3, 4, 5, 6, 255, 1 << 32, U64])); return 'kind-swap', bytes(b)
+    if c == 5 and len(types) >= 2:
+        f, g = r.sample(types, 2); v = r.choice([b[g[0]:g[0] + 8], struct.pack('>Q', r.choice([0, 0x100, 0x11, 0x120, 0x161, 0x40000211, 0x40000600, 0x8000534B, U64]))]); b[f[0]:f[0] + 8] = v; return 'type-swap', bytes(b)
+    if c == 6 and R:
+        s0, e0, _, _ = r.choice(R); i = r.choice(R)[0]; return 'duplicate-record', bytes(b[:i] + b[s0:e0] + b[i:])
+    if c == 7 and len(R) >= 2:
+        (a0, a1, _, _), (c0, c1, _, _) = sorted(r.sample(R, 2)); return 'reorder-records', bytes(b[:a0] + b[c0:c1] + b[a1:c0] + b[a0:a1] + b[c1:])
+    if c == 8 and R:
+        s0, e0, _, _ = r.choice(R); return 'delete-record', bytes(b[:s0] + b[e0:])
+    if c == 9: return 'append-garbage', bytes(b) + r.randbytes(r.choice([1, 7, 8, 16, 24, 100, 4096]))
+    if c == 10: return 'empty-file', b''
+    if c == 11: return 'truncate-random', bytes(b[:r.randrange(0, max(1, n))])
+    if c == 12:
+        k = r.randrange(3); return 'blob:' + ['zeros', 'ff', 'random'][k], [bytes(r.choice([8, 24, 25, 4096, 1 << 20])), b'\xff' * r.choice([8, 24, 4096]), r.randbytes(r.choice([8, 16, 24, 100, 4096]))][k]
+    if c in (13, 14):
+        vs = [f for f in F if f[2] == 'bytes']
+        if vs:    # well-formed file, hostile content: resize a byte string and fix its length field (and the map length is left alone)
+            f = r.choice(vs); m = r.choice([0, 1, 2, f[1] // 2, f[1] + 1, f[1] + 16, 4096, 1 << 16]); new = r.randbytes(m) if r.random() < 0.5 else bytes(b[f[0]:f[0] + f[1]] + bytes(m))[:m]
+            b[f[0]:f[0] + f[1]] = new; put(f[0] - 8, m); return 'value-resize', bytes(b)
+    if c == 15:
+        vs = [f for f in F if f[2] == 'ulong']
+        if vs: f = r.choice(vs); put(f[0], r.choice([0, 1, 2, 3, 4, 5, 6, 0x10, 0x13, 0x1f, 0x21, 0x40, 0x8000, 1 << 31, 1 << 32, U64])); return 'ulong-value', bytes(b)
+    if c == 16:
+        vs = [f for f in F if f[2] == 'bool']
+        if vs: f = r.choice(vs); b[f[0]] = r.choice([0, 1, 2, 0x80, 0xff]); return 'bool-value', bytes(b)
+    if c == 17:
+        vs = [f for f in F if f[2] == 'bytes' and f[1] > 0]
+        if vs: f = r.choice(vs); k = r.randrange(3); b[f[0]:f[0] + f[1]] = [bytes(f[1]), b'\xff' * f[1], r.randbytes(f[1])][k]; return 'value-content', bytes(b)
+    if c == 18 and other is not None: return 'foreign-file', other
+    if c == 19: put(0, r.choice([0, 1, U64, 1 << 63])); return 'generation-field', bytes(b)
+    i = r.randrange(max(1, n)); b[i:i + 1] = bytes([r.choice([0, 0xff, 0x80])]); return 'byte-set', bytes(b)
+
+CKA_OS_TOKENSERIAL = 0x8000534A
+def set_token_serial(b, serial):
+    """rewrite the serial (plaintext byte string, vendor attribute 0x8000534A) of a token.object; None if not found"""
+    F, R = walk_objfile(b)
+    for (s0, e0, t, k) in R:
+        if t == CKA_OS_TOKENSERIAL and k == 3: return bytes(b[:s0 + 16]) + struct.pack('>Q', len(serial)) + serial + bytes(b[e0:])
+    return None
+
+CONF_KEYS = ['directories.tokendir', 'objectstore.backend', 'objectstore.umask', 'log.level', 'slots.removable', 'slots.mechanisms', 'library.reset_on_fork']
+def mutate_conf(rnd, text, d):
+    """one hostile edit of softhsm2.conf -> (class label, bytes).  `d` is the scratch dir (for path tricks)."""
+    r = rnd; lines = text.splitlines(); c = r.randrange(22)
+    def rep(key, val): return ('\n'.join([l for l in lines if not l.startswith(key)] + ['%s = %s' % (key, val)]) + '\n').encode('latin-1')
+    if c == 0: return 'long-line', rep(r.choice(CONF_KEYS), 'A' * r.choice([1000, 1010, 1022, 1023, 1024, 1025, 2047, 2048, 5000, 70000]))
+    if c == 1: return 'long-key', (text + 'K' * r.choice([1023, 1024, 1025, 3000]) + ' = x\n').encode()
+    if c == 2: return 'non-ascii', rep(r.choice(CONF_KEYS), bytes(r.randrange(128, 256) for _ in range(r.choice([1, 10, 300]))).decode('latin-1'))
+    if c == 3: return 'missing-equals', (text + r.choice(['directories.tokendir\n', 'objectstore.backend file\n', '=\n', '= =\n', '===\n', ' = \n', 'log.level=\n', '=x\n'])).encode()
+    if c == 4: return 'unknown-key', (text + r.choice(['foo.bar = 1\n', 'directories.tokendirx = /\n', 'slots = 1\n', 'objectstore.backend.x = db\n'])).encode()
+    if c == 5: return 'tokendir-is-file', rep('directories.tokendir', d + '/softhsm2.conf')
+    if c == 6: return 'tokendir-missing', rep('directories.tokendir', r.choice([d + '/nonexistent', '', '/', '/proc/self/fd', '/dev/null', 'relative/path', d + '/tokens/' + 'x' * 300]))
+    if c == 7: return 'backend-unknown', rep('objectstore.backend', r.choice(['', 'DB', 'sqlite', 'file ', 'x' * 2000, 'db\x00file']))
+    if c == 8: return 'loglevel-garbage', rep('log.level', r.choice(['', 'debug', 'DEBUG', 'TRACE', '7', 'x' * 1500]))
+    if c == 9: return 'bool-garbage', rep(r.choice(['slots.removable', 'library.reset_on_fork']), r.choice(['', 'yes', '1', 'TRUE', 'tru', 'x' * 1100]))
+    if c == 10: return 'umask-garbage', rep('objectstore.umask', r.choice(['', '-1', '9999999999999999999999', '0777', '08', 'abc', '0x1ff']))
+    if c == 11: return 'mechanisms-garbage', rep('slots.mechanisms', r.choice(['', ',', ',,,,', '-', 'ALL', '-ALL', 'CKM_NOPE', 'CKM_AES_CBC,' * 60, '-CKM_AES_CBC,CKM_NOPE', 'CKM_RSA_PKCS', '-' + ',CKM_SHA256' * 200, ' , ,']))
+    if c == 12: return 'empty-file', b''
+    if c == 13: return 'no-trailing-newline', text.rstrip('\n').encode()
+    if c == 14: return 'nul-bytes', text.replace('=', '=\x00', 1).encode() + b'\x00\x00\n\x00'
+    if c == 15: return 'whitespace-only', r.choice([b' \n', b'\t\t\n\n   ', b'\n' * 3000, b' ' * 5000])
+    if c == 16: return 'crlf', text.replace('\n', '\r\n').encode()
+    if c == 17: return 'duplicate-keys', (text + text + text).encode()
+    if c == 18: return 'comment-tricks', (text + '#' * 2000 + '\n' + 'log.level = INFO # x = y\n#\n' + '# ' + 'é' * 600 + '\n').encode()
+    if c == 19: return 'binary-garbage', r.randbytes(r.choice([1, 100, 1024, 5000]))
+    if c == 20: return 'long-line-no-newline', ('directories.tokendir = ' + d + '/tokens' + ' ' * r.choice([1000, 1024, 2048])).encode()
+    return 'many-lines', ((text + 'log.level = INFO\n') * 2000).encode()
